@@ -1,5 +1,6 @@
 """C04 Simulated order sizes are conserved"""
 from symx.run import Harness
+from flumine.exceptions import OrderUpdateError
 from flumine.order.order import OrderStatus
 from flumine.order.orderpackage import OrderPackageType
 from . import common as cm
@@ -104,24 +105,49 @@ def h04a(c, steps=STEPS, max_frags=1):
             c.cover("sp-matched")
 
 
-def h04b(c, K=2):
+VARIANTS = {"default": {}, "full-match": dict(client=dict(simulated_full_match=True)), "bpe-off": dict(client=dict(best_price_execution=False)),
+            "no-isolation": dict(config=dict(simulated_strategy_isolation=False)), "available-prices": dict(config=dict(simulation_available_prices=True))}
+
+
+def h04b(c, K=2, focus="C04", variants=("default", "full-match", "bpe-off", "no-isolation", "available-prices")):
     """K-update histories through the real FlumineSimulation._process_market_books (zero latency) with symbolic books (sizes,
-    traded volume, suspension / version change, SP reconciliation, runner removal) and a symbolic script of strategy actions; an
-    auditing strategy checks the size invariants of every limit order at every callback (process_orders and process_market_book)"""
+    traded volume, suspension / version change, SP reconciliation, runner removal), a symbolic script of strategy actions and a
+    symbolic simulation configuration (full-match mode, best-price execution, strategy isolation, available-prices matching); an
+    auditing strategy checks every order at every callback (process_orders and process_market_book):
+    C04 focus: the size invariants of every limit order;  C03 focus: legal transitions and finality (recorded at the transition)"""
     from flumine.events import events
-    with cm.config_set(simulated=True, place_latency=0.0, cancel_latency=0.0, update_latency=0.0, replace_latency=0.0):
-        state = {"k": 0, "n": 0}
+    from . import lifecycle as lc
+    variant = c.choose("configuration", list(variants))
+    V = VARIANTS[variant]
+    c.tag("configuration", variant)
+    cfg = dict(simulated=True, place_latency=0.0, cancel_latency=0.0, update_latency=0.0, replace_latency=0.0)
+    cfg.update(V.get("config", {}))
+    with cm.config_set(**cfg), lc.Recorder() as rec:
+        state = {"k": 0, "n": 0, "removed": False}
+
+        def finality(tag):
+            for o, m in rec.completed:
+                if state["removed"] and o.selection_id == 1:
+                    continue  # the property's own exception: the bet is voided because its runner was removed
+                c.ob("%s.reported-complete=>matched-size-final" % tag, o.size_matched == m, kind=o.order_type.ORDER_TYPE.name)
 
         def audit(market, where):
+            tag = "u%d.%s" % (state["k"], where)
+            finality(tag)
+            if focus != "C04":
+                state["n"] += len(market.blotter._orders)
+                return
             for o in market.blotter:
                 if o.order_type.ORDER_TYPE.name != "LIMIT" or o.status == OrderStatus.VIOLATION:
                     continue
                 sm = o.simulated
-                tag = "u%d.%s" % (state["k"], where)
                 tot = sm.size_matched + sm.size_remaining + sm.size_cancelled + sm.size_lapsed + sm.size_voided
                 c.ob("%s.conservation" % tag, tot == o.order_type.size)
                 c.ob("%s.remaining>=0" % tag, sm.size_remaining >= 0)
                 c.ob("%s.matched>=0" % tag, sm.size_matched >= 0)
+                if not (o.side == "LAY" and o.order_type.persistence_type == "MARKET_ON_CLOSE"):
+                    # (a LAY limit order carried to the starting price is re-sized to preserve its liability: the property's exception)
+                    c.ob("%s.matched<=requested" % tag, sm.size_matched <= o.order_type.size)
                 if o.status != OrderStatus.PENDING:
                     c.ob("%s.complete<=>nothing-remains" % tag, o.complete == (sm.size_remaining == 0) if isinstance(sm.size_remaining == 0, bool) else
                          c.And(c.Implies(o.complete, sm.size_remaining == 0), c.Implies(sm.size_remaining == 0, o.complete)), status=o.status.name)
@@ -130,8 +156,10 @@ def h04b(c, K=2):
         def pmb(strategy, market, market_book):
             audit(market, "process_market_book")
             k = state["k"]
-            act = c.choose("action%d" % k, ["none", "place-rest", "place-cross", "place-fok", "cancel-part", "cancel-all", "replace", "update"])
-            live = [o for o in market.blotter if o.status == OrderStatus.EXECUTABLE and o.bet_id]
+            if state.get("flush"):
+                return
+            act = c.choose("action%d" % k, ["none", "place-rest", "place-cross", "place-fok", "place-sp", "cancel-part", "cancel-all", "replace", "update"])
+            live = [o for o in market.blotter if o.status == OrderStatus.EXECUTABLE and o.bet_id and o.order_type.ORDER_TYPE.name == "LIMIT"]
             if act.startswith("place"):
                 side = c.choose("side%d" % k, ["BACK", "LAY"])
                 size = c.cents("size%d" % k, 1, 100000)
@@ -139,6 +167,8 @@ def h04b(c, K=2):
                     o = cm.mk_limit(strategy, side, 2.0, size, persistence=c.choose("persistence%d" % k, ["LAPSE", "MARKET_ON_CLOSE"]))
                 elif act == "place-cross":
                     o = cm.mk_limit(strategy, side, 1.5 if side == "BACK" else 3.0, size)
+                elif act == "place-sp":
+                    o = cm.mk_moc(strategy, side, size) if c.choose("sp_kind%d" % k, ["MOC", "LOC"]) == "MOC" else cm.mk_loc(strategy, side, size, 1.5 if side == "BACK" else 30.0)
                 else:
                     mfs = c.cents("min_fill%d" % k, 1, 100000) if c.choose("min_fill_given%d" % k, [False, True]) else None
                     o = cm.mk_limit(strategy, side, 1.5 if side == "BACK" else 3.0, size, tif="FILL_OR_KILL", mfs=mfs)
@@ -157,30 +187,59 @@ def h04b(c, K=2):
                 elif act == "update":
                     market.update_order(o, "PERSIST" if o.order_type.persistence_type != "PERSIST" else "LAPSE", force=True)
                 c.cover("amended")
+                if o.status != OrderStatus.EXECUTABLE:
+                    # a further request while that one is in flight is rejected by the order (the strategy swallows the error)
+                    again = c.choose("second_request%d" % k, [None, "cancel-part", "replace"])
+                    try:
+                        if again == "cancel-part":
+                            market.cancel_order(o, c.cents("second_reduction%d" % k, 1, 100000), force=True)
+                        elif again == "replace":
+                            market.replace_order(o, 2.06, force=True)
+                        if again:
+                            c.ob("u%d.second-request-rejected" % k, False)
+                    except OrderUpdateError:
+                        c.cover("second-request-rejected")
 
         def po(strategy, market, orders):
             audit(market, "process_orders")
 
-        fl, (client,), (strategy,) = cm.new_sim(hooks=dict(process_market_book=pmb, process_orders=po))
+        fl, (client,), (strategy,) = cm.new_sim(hooks=dict(process_market_book=pmb, process_orders=po), client_kwargs=V.get("client", {}))
         tv = c.cents("tv0", 0, 100000)
-        removed = False
         with fl.simulated_datetime:
             for k in range(K + 1):
                 state["k"] = k
-                ev = c.choose("book%d" % k, ["open", "traded", "suspended-new-version", "sp-reconciled", "runner-removed"]) if k > 0 else "open"
+                evs = ["open", "traded", "suspended-new-version", "sp-reconciled", "runner-removed"] if k > 0 else ["open", "sp-reconciled"]
+                if state.get("sp") is not None:
+                    evs.remove("sp-reconciled")  # reconciled once; every later book carries the starting price and is in-play
+                ev = c.choose("book%d" % k, evs)
                 if ev == "traded":
                     tv = tv + c.cents("traded_delta%d" % k, 1, 200000)
                 if ev == "runner-removed":
-                    removed = True
+                    state["removed"] = True
+                removed = state["removed"]
                 r1 = cm.runner(1, status="REMOVED" if removed else "ACTIVE", adjustment_factor=10.0 if removed else None,
                                atb=[{"price": 1.9, "size": c.cents("atb%d" % k, 1, 100000)}], atl=[{"price": 2.1, "size": c.cents("atl%d" % k, 1, 100000)}],
                                tv=[{"price": 2.0, "size": tv}])
                 if ev == "sp-reconciled":
-                    r1.sp = cm.SP(actualSP=c.pick("actual_sp%d" % k, [1.5, 2.0, 7.4]))
+                    state["sp"] = c.pick("actual_sp%d" % k, [1.5, 2.0, 7.4])
+                if state.get("sp") is not None:
+                    r1.sp = cm.SP(actualSP=state["sp"])
                 bk = cm.book([r1, cm.runner(2)], version=7 + (1 if ev == "suspended-new-version" else 0), pt_ms=cm.T0_MS + 1000 * k,
-                             status="SUSPENDED" if ev == "suspended-new-version" else "OPEN", bsp_reconciled=(ev == "sp-reconciled"), inplay=(ev == "sp-reconciled"))
+                             status="SUSPENDED" if ev == "suspended-new-version" else "OPEN", bsp_reconciled=state.get("sp") is not None, inplay=state.get("sp") is not None)
                 with c.guard("update%d:%s" % (k, ev)):
                     fl._process_market_books(events.MarketBookEvent([bk]))
+            # one more (unchanged, open) book so that what was requested at the last update takes effect and is audited
+            state["flush"], state["k"] = True, K + 1
+            r1 = cm.runner(1, status="REMOVED" if state["removed"] else "ACTIVE", adjustment_factor=10.0 if state["removed"] else None,
+                           atb=[{"price": 1.9, "size": 1.0}], atl=[{"price": 2.1, "size": 1.0}], tv=[{"price": 2.0, "size": tv}])
+            if state.get("sp") is not None:
+                r1.sp = cm.SP(actualSP=state["sp"])
+            bk = cm.book([r1, cm.runner(2)], version=7, pt_ms=cm.T0_MS + 1000 * (K + 1), bsp_reconciled=state.get("sp") is not None, inplay=state.get("sp") is not None)
+            with c.guard("flush"):
+                fl._process_market_books(events.MarketBookEvent([bk]))
+        finality("end")
+        if focus == "C03":
+            lc.transition_obligations(c, rec, list(fl.markets.markets[cm.MID].blotter))
         if state["n"]:
             c.cover("audited")
 
